@@ -131,6 +131,9 @@ func (g *fgen) resolveType(ct *ctype, pkg *types.Package) (types.Type, error) {
 		if name == "ref" || name == "mathint" {
 			return tInt, nil
 		}
+		if name == "real" {
+			return realType{}, nil
+		}
 		if i := strings.LastIndex(name, "."); i >= 0 {
 			p := g.findPkgByName(pkg, name[:i])
 			if p == nil {
@@ -513,6 +516,11 @@ func (e *cenv) unify(a, b val) (val, val) {
 	} else if isFloatSort(b.sort) && a.sort == "Int" {
 		a = val{fmt.Sprintf("((_ to_fp 11 53) RNE (to_real %s))", a.t), b.typ, b.sort}
 	}
+	if a.sort == "Real" && b.sort == "Int" {
+		b = val{fmt.Sprintf("(to_real %s)", b.t), realType{}, "Real"}
+	} else if b.sort == "Real" && a.sort == "Int" {
+		a = val{fmt.Sprintf("(to_real %s)", a.t), realType{}, "Real"}
+	}
 	if a.typ == types.Typ[types.UntypedInt] {
 		a.typ = b.typ
 	} else if b.typ == types.Typ[types.UntypedInt] {
@@ -597,6 +605,24 @@ func (e *cenv) binary(x *cBinary) val {
 			return val{fmt.Sprintf("(fp.div RNE %s %s)", a.t, b.t), a.typ, a.sort}
 		}
 		e.fail("unsupported float op %s", x.op)
+	}
+	if a.sort == "Real" || b.sort == "Real" {
+		if a.sort == "Int" {
+			a = val{fmt.Sprintf("(to_real %s)", a.t), realType{}, "Real"}
+		}
+		if b.sort == "Int" {
+			b = val{fmt.Sprintf("(to_real %s)", b.t), realType{}, "Real"}
+		}
+		if a.sort != "Real" || b.sort != "Real" {
+			e.fail("operator %s on %s/%s", x.op, a.sort, b.sort)
+		}
+		switch x.op {
+		case "<", "<=", ">", ">=":
+			return val{fmt.Sprintf("(%s %s %s)", x.op, a.t, b.t), tBool, "Bool"}
+		case "+", "-", "*":
+			return val{fmt.Sprintf("(%s %s %s)", x.op, a.t, b.t), realType{}, "Real"}
+		}
+		e.fail("unsupported real op %s", x.op)
 	}
 	if a.sort == "String" {
 		switch x.op {
@@ -695,6 +721,9 @@ func (e *cenv) convert(v val, t types.Type) val {
 		}
 	}
 	if isFloatSort(srt) && v.sort == "Int" {
+		if ii, ok := intInfoOf(v.typ); ok && v.typ != types.Typ[types.UntypedInt] {
+			return val{intToFloatTerm(ii, v.t, 11, 53), t, srt}
+		}
 		return val{fmt.Sprintf("((_ to_fp 11 53) RNE (to_real %s))", v.t), t, srt}
 	}
 	if v.sort == srt {
@@ -847,7 +876,67 @@ func (e *cenv) call(x *cCall) val {
 		return val{fmt.Sprintf("(fpbits %s)", a.t), types.Typ[types.Uint64], "(_ BitVec 64)"}
 	case "isNaN":
 		a := e.tr(x.args[0])
+		if !isFloatSort(a.sort) {
+			return val{"false", tBool, "Bool"}
+		}
 		return val{fmt.Sprintf("(fp.isNaN %s)", a.t), tBool, "Bool"}
+	case "exactLT", "exactEQ":
+		// exact numeric comparison of ints and finite floats (the order of their
+		// mathematical values), decided without reals
+		a := e.tr(x.args[0])
+		b := e.tr(x.args[1])
+		lt := func(a, b val) string {
+			switch {
+			case a.sort == "Int" && b.sort == "Int":
+				return fmt.Sprintf("(< %s %s)", a.t, b.t)
+			case isFloatSort(a.sort) && isFloatSort(b.sort):
+				return fmt.Sprintf("(fp.lt %s %s)", a.t, b.t)
+			case a.sort == "Int" && isFloatSort(b.sort):
+				ii, ok := intInfoOf(a.typ)
+				if !ok {
+					ii = intInfo{true, 64}
+				}
+				return exactLessIntFloat(ii, a.t, b.t)
+			case isFloatSort(a.sort) && b.sort == "Int":
+				ii, ok := intInfoOf(b.typ)
+				if !ok {
+					ii = intInfo{true, 64}
+				}
+				return exactLessFloatInt(ii, a.t, b.t)
+			}
+			e.fail("%s on %s/%s", name, a.sort, b.sort)
+			return ""
+		}
+		if name == "exactLT" {
+			return val{lt(a, b), tBool, "Bool"}
+		}
+		return val{fmt.Sprintf("(and (not %s) (not %s))", lt(a, b), lt(b, a)), tBool, "Bool"}
+	case "same":
+		// identity (SMT =): for floats this distinguishes +0/-0 and equates NaN with itself
+		a := e.tr(x.args[0])
+		b := e.tr(x.args[1])
+		a, b = e.unify(a, b)
+		if a.sort != b.sort {
+			e.fail("same() on %s/%s", a.sort, b.sort)
+		}
+		return val{fmt.Sprintf("(= %s %s)", a.t, b.t), tBool, "Bool"}
+	case "isFinite":
+		a := e.tr(x.args[0])
+		if !isFloatSort(a.sort) {
+			return val{"true", tBool, "Bool"}
+		}
+		return val{fmt.Sprintf("(and (not (fp.isNaN %s)) (not (fp.isInfinite %s)))", a.t, a.t), tBool, "Bool"}
+	case "real":
+		a := e.tr(x.args[0])
+		switch {
+		case a.sort == "Int":
+			return val{fmt.Sprintf("(to_real %s)", a.t), realType{}, "Real"}
+		case isFloatSort(a.sort):
+			return val{fmt.Sprintf("(fp.to_real %s)", a.t), realType{}, "Real"}
+		case a.sort == "Real":
+			return a
+		}
+		e.fail("real() of %s", a.sort)
 	case "setof":
 		// setof(T) = empty set of T
 		t, ok := e.typeArg(x.args[0])
@@ -1088,7 +1177,16 @@ func (e *cenv) specCall(sf *specFunc, args []val) val {
 	if len(as) == 0 {
 		return val{name, rt, g.sortOf(rt)}
 	}
-	return val{"(" + name + " " + strings.Join(as, " ") + ")", rt, g.sortOf(rt)}
+	app := "(" + name + " " + strings.Join(as, " ") + ")"
+	if sf.body == nil && e.side != nil && !strings.Contains(app, "q!") && !strings.Contains(app, "a!") {
+		// an uninterpreted spec function returns a value of its declared Go type
+		if _, isBasic := rt.Underlying().(*types.Basic); isBasic {
+			if f := g.wf(app, rt, "", 0); f != "true" {
+				*e.side = append(*e.side, f)
+			}
+		}
+	}
+	return val{app, rt, g.sortOf(rt)}
 }
 
 // safeTr translates a clause, converting translation failures into errors.
